@@ -9,7 +9,7 @@ PROPS = {
         "oracle_engine": {"framing": "stream", "codec": "codec"},
         "trusted": [SYMBOLIC_CRYPTO],
         "technique": "Lean 4 theorems (round-trip by induction over accepted frame chains; send-accepts-implies-receive-accepts by case analysis) + correspondence on real streams over boundary sizes and all short compositions",
-        "level_text": "incremental_equals_complete (StartMessageRead + ReadMessageBytes(n) until end-of-message + EndMessageRead hands over exactly the message ReceiveCompleteMessage would, for every chunk size, consuming the same frames and leaving the stream clean) with readLoop_all; frame_roundtrip (bytes), send_accept_recv_accept (every frame a sender accepts passes the receiver's checks, both modes, first and later frames), messages_roundtrip_plain / _encrypted (ReceiveCompleteMessage loop returns exactly the sent messages for every accepted send history), typed-layer chunking theorems, typed_strbytes_any_length / typed_bytes_any_length (PutStringBytes and PutBytes of any length, including the >= 1 MiB branches, put exactly the reference bytes on the wire) and typed_rest_any_length (GetRemainingBytes returns exactly the unconsumed bytes of the message in any cut into frames; a truncated wire is an error); kernel-checked over the model. Tied to the code by the framing and codec engines on real streams (sizes around 4 KiB / 16 KiB / 1 MiB ± GCM overhead; every composition of short messages; one message of 1-3 MiB assembled from many partial sends / buffered writes / by the typed layer with position-dependent content; incremental, complete and typed receive APIs; large PutBytes/PutString/PutStringBytes followed by another value, GetRemainingBytes over several frames).",
+        "level_text": "incremental_equals_complete (StartMessageRead + ReadMessageBytes(n) until end-of-message + EndMessageRead hands over exactly the message ReceiveCompleteMessage would, for every chunk size, consuming the same frames and leaving the stream clean) with readLoop_all; frame_roundtrip (bytes), send_accept_recv_accept (every frame a sender accepts passes the receiver's checks, both modes, first and later frames), messages_roundtrip_plain / _encrypted (ReceiveCompleteMessage loop returns exactly the sent messages for every accepted send history), buffered_roundtrip_plain / _encrypted (ANY sequence of messages each assembled by StartMessage, WriteMessage calls of any sizes with threshold flushes, EndMessage, is delivered as exactly one message per EndMessage = the concatenation of its writes) and buffered_incremental_plain (the same through the incremental API), typed-layer chunking theorems, typed_strbytes_any_length / typed_bytes_any_length (PutStringBytes and PutBytes of any length, including the >= 1 MiB branches, put exactly the reference bytes on the wire) and typed_rest_any_length (GetRemainingBytes returns exactly the unconsumed bytes of the message in any cut into frames; a truncated wire is an error); kernel-checked over the model. Tied to the code by the framing and codec engines on real streams (sizes around 4 KiB / 16 KiB / 1 MiB ± GCM overhead; every composition of short messages; one message of 1-3 MiB assembled from many partial sends / buffered writes / by the typed layer with position-dependent content; incremental, complete and typed receive APIs; large PutBytes/PutString/PutStringBytes followed by another value, GetRemainingBytes over several frames).",
         "level_note": "TCP delivery reliable and in order; symbolic AEAD; model hand-written, validated by correspondence; limits regenerated from source.",
         "assumptions": ["net.Conn delivers bytes reliably and in order"],
     },
